@@ -21,6 +21,7 @@ package server
 
 import (
 	"context"
+	"encoding/binary"
 	"fmt"
 	"os"
 	"path/filepath"
@@ -114,6 +115,7 @@ type c11Env struct {
 	// still running (classified at the end, with the complete history)
 	pending  map[int]c11Pending
 	reported map[int]bool // fetches (by seq) already reported when they were observed
+	lastHWDesc string
 	val     int64
 	coldSeq int64
 	// timeout of one operation; changed only while no client is running
@@ -443,6 +445,9 @@ func (e *c11Env) violation(kind, phase, what string, key string, seq int) {
 		}
 	}
 	w := e.witness(key, seq)
+	e.mu.Lock()
+	w["hw_segment_when_judged"] = e.lastHWDesc
+	e.mu.Unlock()
 	if havePend {
 		w["cursors_log_when_observed"] = pend.dump
 	}
@@ -491,21 +496,54 @@ func (e *c11Env) hwInSparseSegment(key string) (node, desc string) {
 		if base < 0 {
 			continue
 		}
-		recs, err := c11ReadLogRetry(p)
-		if err != nil {
+		// Count the records of that segment straight from its file (the
+		// log's own cleaner may be rewriting segments, which makes reads
+		// through a log reader fail).
+		cnt, ok := c11CountSegmentRecords(srv, pid, base, hw)
+		if !ok {
 			continue
 		}
-		cnt := int64(0)
-		for _, r := range recs {
-			if r.Offset >= base && r.Offset <= hw {
-				cnt++
-			}
-		}
+		d := fmt.Sprintf("partition %d: HW=%d, segment base %d holds %d records in [%d,%d], newest=%d, segments %v", pid, hw, base, cnt, base, hw, p.log.NewestOffset(), bases)
+		e.mu.Lock()
+		e.lastHWDesc = "node " + n.ID + " " + d
+		e.mu.Unlock()
 		if cnt < hw-base+1 {
-			return n.ID, fmt.Sprintf("partition %d: HW=%d, segment base %d holds %d records in [%d,%d], newest=%d, segments %v", pid, hw, base, cnt, base, hw, p.log.NewestOffset(), bases)
+			return n.ID, d
 		}
 	}
 	return "", ""
+}
+
+// c11CountSegmentRecords parses the segment file with the given base offset
+// (message sets: offset 8 | timestamp 8 | leader epoch 8 | size 4 | payload)
+// and counts the records with offset <= upTo.
+func c11CountSegmentRecords(srv *Server, pid int32, base, upTo int64) (int64, bool) {
+	path := filepath.Join(srv.config.DataDir, "streams", cursorsStream, fmt.Sprint(pid), fmt.Sprintf("%020d.log", base))
+	for attempt := 0; attempt < 20; attempt++ {
+		b, err := os.ReadFile(path)
+		if err != nil {
+			time.Sleep(5 * time.Millisecond) // between the two renames of a replacement
+			continue
+		}
+		cnt, pos, bad := int64(0), 0, false
+		for pos+28 <= len(b) {
+			off := int64(binary.BigEndian.Uint64(b[pos:]))
+			size := int(int32(binary.BigEndian.Uint32(b[pos+24:])))
+			if size < 0 || pos+28+size > len(b) || off < base {
+				bad = true
+				break
+			}
+			if off <= upTo {
+				cnt++
+			}
+			pos += 28 + size
+		}
+		if !bad {
+			return cnt, true
+		}
+		time.Sleep(5 * time.Millisecond)
+	}
+	return 0, false
 }
 
 // c11ReadLogRetry reads the whole partition log; a read that loses a segment
@@ -864,10 +902,14 @@ func (e *c11Env) fetchQuiescent(n *vfNode, k c11Key, phase string) c11Op {
 			// as far as the harness is concerned): a reader that loses its
 			// segment to the cleaner reports an error, which is no answer
 			transient++
-			if attempts < 150 {
+			if attempts < 24 {
 				attempts++
 			}
-			time.Sleep(25 * time.Millisecond)
+			// wait for the pass to end (the hook fires at its end), then retry at once
+			ticks := atomic.LoadInt64(&e.cleanTicks)
+			vfWait(3*time.Second, func() bool { return atomic.LoadInt64(&e.cleanTicks) != ticks })
+			time.Sleep(3 * time.Millisecond)
+			continue
 		}
 		time.Sleep(15 * time.Millisecond)
 	}
